@@ -122,6 +122,9 @@ func (r *MultiplyReceiver) EmptyMultiplySendRound1Message() *MultiplySendRound1M
 
 // Round1 runs the Sender's first round in the multiplication protocol.
 func (r *MultiplySender) Round1(msg *MultiplyReceiveRound1Message) (*MultiplySendRound1Message, curve.Scalar, error) {
+	if msg == nil || msg.Msg == nil {
+		return nil, nil, errors.New("multiply send round 1: missing message fields")
+	}
 	additiveMsg, result, err := r.sender.Round1(msg.Msg)
 	if err != nil {
 		return nil, nil, err
@@ -205,9 +208,20 @@ func (r *MultiplyReceiver) Round1() *MultiplyReceiveRound1Message {
 
 // Round2 runs the second round for the Receiver in the multiplication protocol.
 func (r *MultiplyReceiver) Round2(msg *MultiplySendRound1Message) (curve.Scalar, error) {
+	if msg == nil || msg.Msg == nil || msg.UCheck == nil {
+		return nil, errors.New("multiply receive round 2: missing message fields")
+	}
 	result, err := r.receiver.Round2(msg.Msg)
 	if err != nil {
 		return nil, err
+	}
+	if len(msg.RCheck) != len(result) {
+		return nil, errors.New("multiply receive round 2: wrong number of check values")
+	}
+	for _, c := range msg.RCheck {
+		if c == nil {
+			return nil, errors.New("multiply receive round 2: missing message fields")
+		}
 	}
 
 	digest := r.ctxHash.Fork(&hash.BytesWithDomain{TheDomain: "Multiply Chi Sampling", Bytes: nil}).Digest()
